@@ -794,7 +794,7 @@ func runLife(root string, startDir string, w *world, c cfg, ops []string) *life 
 
 // lazyPeriod: in a lazy life only every lazyPeriod-th commit is written through to leveldb (and
 // flushes what the metadata cache holds); the others stay in the cache, i.e. are lost by a crash.
-const lazyPeriod = 3
+const lazyPeriod = 7 // longer than one delivery (5 commits): a block can sit unsynced in a file while the next one rolls over
 
 func runLifeMode(root string, startDir string, w *world, c cfg, ops []string, lazy bool) *life {
 	os.MkdirAll(root, 0o755)
@@ -1099,6 +1099,20 @@ func reopenV(root, imgDir string, w *world, c cfg, acked []int, ops []string, px
 			sj++
 		}
 	}
+	// every block the store says it has must read back byte for byte
+	unreadable := 0
+	raw.View(func(tx database.Tx) error {
+		for _, id := range ids {
+			h := w.byID[id].Hash()
+			if ok, _ := tx.HasBlock(h); ok {
+				b, err := tx.FetchBlock(h)
+				if want, ok2 := w.raw[id]; err != nil || (ok2 && !bytes.Equal(b, want)) {
+					unreadable++
+				}
+			}
+		}
+		return nil
+	})
 	// heights and coinbase flags of the unspent entries (entries differ per block and per transaction)
 	hsum, ncb := 0, 0
 	if utxo != "-" && utxo != "err" {
@@ -1113,7 +1127,7 @@ func reopenV(root, imgDir string, w *world, c cfg, acked []int, ops []string, px
 		}
 	}
 	bs := ch.BestSnapshot()
-	out := fmt.Sprintf("r=ok,%d,%s,%s,%d uh=%d/%d mc=%s bb=%d sj=%d bs=%d/%d/%d", tip, strings.Join(chain, "."), utxo, missing, hsum, ncb, joinOr(mc), bb, sj,
+	out := fmt.Sprintf("r=ok,%d,%s,%s,%d ur=%d uh=%d/%d mc=%s bb=%d sj=%d bs=%d/%d/%d", tip, strings.Join(chain, "."), utxo, missing, unreadable, hsum, ncb, joinOr(mc), bb, sj,
 		bs.Height, bs.NumTxns, bs.TotalTxns)
 	for _, op := range deliveries(ops) {
 		id, _ := strconv.Atoi(op[1:])
@@ -1146,7 +1160,7 @@ func reopenV(root, imgDir string, w *world, c cfg, acked []int, ops []string, px
 		mcOK = mcOK && onChain[x]
 	}
 	v.apis = strings.Join(chain, ".") == w.pathStr(tip) && mcOK && int(bs.Height) == w.heightOf(tip) &&
-		int(bs.TotalTxns) == wantTotal && int(bs.NumTxns) == w.numTx(tip) && sj <= bb && (c.prune != 0 || sj == bb-1)
+		unreadable == 0 && int(bs.TotalTxns) == wantTotal && int(bs.NumTxns) == w.numTx(tip) && sj <= bb && (c.prune != 0 || sj == bb-1)
 	fu, _ := w.foldUtxo(ft)
 	v.converged = ft == px.specFin && futxo == fu
 	for _, id := range ids {
@@ -1992,12 +2006,12 @@ func (P) Generate(g *core.Gen) {
 			g.Case(class+"-torn", true, fmt.Sprintf("C04 torn %s %d", key, 4+g.R.Intn(n-3)))
 		}
 		// power loss with a lazily flushed metadata cache: the image of the durable prefix
-		lazyHere := g.Thorough() || class == "linear" || class == "reorg" || class == "prune" || class == "prune-fit"
-		for i := 0; lazyHere && i < 3 && n > 6; i++ {
-			g.Case(class+"-lazy", true, fmt.Sprintf("C04 lazy %s %d", key, 3+g.R.Intn(n-2)))
+		lazyHere := g.Thorough() || class == "linear" || class == "reorg" || class == "prune-fit"
+		for i := 0; lazyHere && i < 3 && n > 8; i++ {
+			g.Case(class+"-lazy", true, fmt.Sprintf("C04 lazy %s %d", key, lazyPeriod+g.R.Intn(n-lazyPeriod+1)))
 		}
 		// power-loss images: block files cut back to what had been fsynced at commit k
-		for i := 0; i < 3 && n > 3; i++ {
+		for i := 0; i < 2 && n > 3; i++ {
 			g.Case(class+"-sync", true, fmt.Sprintf("C04 sync %s %d", key, 4+g.R.Intn(n-3)))
 		}
 		for i := 0; i < nk && n > 3; i++ {
@@ -2147,7 +2161,7 @@ func (P) Generate(g *core.Gen) {
 		"C04 img 2 0 1:0:- d1 1", "C04 img 0 0 1:1:- d1 1", "C04 img 0 0 1:0:- d2 1", "C04 img 0 0 1:0:- d1 0",
 		"C04 img 0 0 1:0:-:y d1 1", "C04 img 0 0 1:0:-,1:0:- d1 1", "C04 img 0 0 - - 1", "C04 img 0 0 - - 3", "C04 img 0 0 - - 4",
 		"C04 img 0 0 1:0:- d1", "C04 nop", "C04 img 0 500:1000 1:0:- d1 1", "C04 img 0 1000:0 1:0:- d1 1",
-		"C04 img2 0 0 1:0:- d1 4 0", "C04 sync 0 0 1:0:- d1", "C04 sync 0 0 1:0:- d1 0", "C04 lazy 0 0 1:0:- d1 2", "C04 lazy 0 0 1:0:- d1 3", "C04 lazy 0 0 1:0:- d1 99", "C04 lazy 0 0 1:0:- d1", "C04 par 0 0 1:0:- d1 4", "C04 par 0 0 1:0:- d1 4.0", "C04 par 0 0 1:0:- d1 4.x", "C04 img 1>2 0 1:0:- d1 4", "C04 img 1>0>1>0 0 1:0:- d1 4", "C04 img > 0 1:0:- d1 4", "C04 img 1>0 0 1:0:- d1 4", "C04 img2 0 0 1:0:- d1 4 1", "C04 img2 0 0 1:0:- d1 4 99", "C04 torn 0 0 1:0:- d1 5",
+		"C04 img2 0 0 1:0:- d1 4 0", "C04 sync 0 0 1:0:- d1", "C04 sync 0 0 1:0:- d1 0", "C04 lazy 0 0 1:0:- d1 6", "C04 lazy 0 0 1:0:- d1 7", "C04 lazy 0 0 1:0:- d1 99", "C04 lazy 0 0 1:0:- d1", "C04 par 0 0 1:0:- d1 4", "C04 par 0 0 1:0:- d1 4.0", "C04 par 0 0 1:0:- d1 4.x", "C04 img 1>2 0 1:0:- d1 4", "C04 img 1>0>1>0 0 1:0:- d1 4", "C04 img > 0 1:0:- d1 4", "C04 img 1>0 0 1:0:- d1 4", "C04 img2 0 0 1:0:- d1 4 1", "C04 img2 0 0 1:0:- d1 4 99", "C04 torn 0 0 1:0:- d1 5",
 	} {
 		g.Case("malformed", false, l)
 	}
